@@ -73,6 +73,23 @@ type builderHandler struct {
 	depth int
 	docs  []any
 	berr  error
+	kinds []byte // open containers, to hold the event stream to the TokenHandler protocol
+}
+
+// protocol records a violation of the TokenHandler protocol (the adapter must not silently repair an
+// ill-formed event stream: a key outside an object, two keys in a row, a member without key, a
+// mismatched end).
+func (h *builderHandler) protocol(what string) {
+	if h.berr == nil {
+		h.berr = fmt.Errorf("verif: ill-formed token stream: %s", what)
+	}
+}
+
+func (h *builderHandler) top() byte {
+	if len(h.kinds) == 0 {
+		return 0
+	}
+	return h.kinds[len(h.kinds)-1]
 }
 
 func newBuilderHandler() *builderHandler {
@@ -96,6 +113,12 @@ func (h *builderHandler) done() {
 }
 
 func (h *builderHandler) val(v any) {
+	if h.top() == '{' && !h.hasK {
+		h.protocol("value in an object without a key")
+	}
+	if h.top() != '{' && h.hasK {
+		h.protocol("key outside an object")
+	}
 	if h.hasK {
 		h.hasK = false
 		h.note(h.b.Value(v, h.key))
@@ -113,6 +136,10 @@ func (h *builderHandler) Number(v string) { h.val(jsonNumber(v)) }
 func (h *builderHandler) String(v string) { h.val(v) }
 func (h *builderHandler) Key(k string)    { h.key, h.hasK = k, true }
 func (h *builderHandler) ObjectStart() {
+	if h.top() == '{' && !h.hasK {
+		h.protocol("object in an object without a key")
+	}
+	h.kinds = append(h.kinds, '{')
 	if h.hasK {
 		h.hasK = false
 		h.note(h.b.Object(h.key))
@@ -121,8 +148,25 @@ func (h *builderHandler) ObjectStart() {
 	}
 	h.depth++
 }
-func (h *builderHandler) ObjectEnd() { h.b.Pop(); h.depth--; h.done() }
+func (h *builderHandler) ObjectEnd() {
+	if h.top() != '{' {
+		h.protocol("ObjectEnd without an open object")
+		return
+	}
+	if h.hasK {
+		h.protocol("ObjectEnd after a key without value")
+		h.hasK = false
+	}
+	h.kinds = h.kinds[:len(h.kinds)-1]
+	h.b.Pop()
+	h.depth--
+	h.done()
+}
 func (h *builderHandler) ArrayStart() {
+	if h.top() == '{' && !h.hasK {
+		h.protocol("array in an object without a key")
+	}
+	h.kinds = append(h.kinds, '[')
 	if h.hasK {
 		h.hasK = false
 		h.note(h.b.Array(h.key))
@@ -131,7 +175,16 @@ func (h *builderHandler) ArrayStart() {
 	}
 	h.depth++
 }
-func (h *builderHandler) ArrayEnd() { h.b.Pop(); h.depth--; h.done() }
+func (h *builderHandler) ArrayEnd() {
+	if h.top() != '[' {
+		h.protocol("ArrayEnd without an open array")
+		return
+	}
+	h.kinds = h.kinds[:len(h.kinds)-1]
+	h.b.Pop()
+	h.depth--
+	h.done()
+}
 
 func run(name string, rd *sim.SimReader, f func(o *outcome)) *outcome {
 	o := &outcome{Name: name}
